@@ -172,16 +172,12 @@ Qed.
 (* ================================================================================================ *)
 (* D. every table key a client method uses is in the table                                          *)
 (* ================================================================================================ *)
-Definition iam_supplied (s : svc) : Prop := forall n, In n (map snd IAM_LEGACY) -> In n (s_mixins s).
-
 Lemma snake_in_mixins s n : In n (s_mixins s) -> In (snake n) (wrapped_keys s).
 Proof. intro H. unfold wrapped_keys. apply in_or_app. right. now apply in_map. Qed.
 
-Lemma lookup_total v s :
-  (s_add_iam s = false \/ v = Sync \/ iam_supplied s) ->
-  forall k, In k (client_lookup_keys v s) -> In k (wrapped_keys s).
+Lemma lookup_total v s : forall k, In k (client_lookup_keys v s) -> In k (wrapped_keys s).
 Proof.
-  intros H k Hk. unfold client_lookup_keys in Hk. apply in_map_iff in Hk as [c [<- Hc]].
+  intros k Hk. unfold client_lookup_keys in Hk. apply in_map_iff in Hk as [c [<- Hc]].
   apply filter_In in Hc as [Hc Hf]. unfold client_methods in Hc.
   apply in_app_or in Hc as [Hc|Hc]; [|apply in_app_or in Hc as [Hc|Hc]].
   - unfold method_cms in Hc. apply in_map_iff in Hc as [m [<- Hm]]. simpl.
@@ -189,31 +185,32 @@ Proof.
   - unfold mixin_cms in Hc. apply in_map_iff in Hc as [n [<- Hn]]. simpl.
     unfold mixins_emitted in Hn. apply filter_In in Hn as [_ Hn]. apply andb_true_iff in Hn as [Hn _].
     apply snake_in_mixins. now apply mem_str_In.
-  - unfold legacy_iam_cms in Hc. destruct (s_add_iam s) eqn:A; [|contradiction].
-    apply in_map_iff in Hc as [kn [<- Hkn]]. simpl in Hf |- *.
-    destruct H as [H|[->|H]]; [discriminate|discriminate|].
-    destruct v; [discriminate|].
-    assert (S : In (snd kn) (s_mixins s)) by (apply H; now apply in_map).
-    apply snake_in_mixins in S.
-    assert (E : snake (snd kn) = fst kn).
-    { simpl in Hkn. destruct Hkn as [<-|[<-|[<-|[]]]]; vm_compute; reflexivity. }
-    now rewrite E in S.
+  - unfold legacy_iam_cms in Hc. destruct (s_add_iam s); [|contradiction].
+    apply in_map_iff in Hc as [kn [E Hkn]]. subst c. simpl in Hf. discriminate Hf.
 Qed.
 
-(* the legacy IAM methods of the asyncio client ask the table for entries it does not have *)
-Lemma lookup_total_refuted :
-  exists s, s_add_iam s = true /\ s_mixins s = [] /\
-    In "set_iam_policy" (client_lookup_keys Async s) /\ ~ In "set_iam_policy" (wrapped_keys s) /\
-    dispatch Async s (mkCM "set_iam_policy" Table "set_iam_policy") = None /\
-    (exists st, dispatch Sync s (mkCM "set_iam_policy" Direct "set_iam_policy") = Some st /\
-                st_path st = "/google.iam.v1.IAMPolicy/SetIamPolicy") /\
-    (forall k, In k (client_lookup_keys Sync s) -> In k (wrapped_keys s)).
+(* hence no client method of an RPC or of a mixin fails in the table lookup *)
+Lemma table_dispatch_defined v s c :
+  In c (client_methods v s) -> cm_form c = Table -> dispatch v s c = live s (cm_key c).
 Proof.
-  exists (mkSvc "p.v1" "Library" [mk "GetBook" false false] [] true).
-  split; [reflexivity|]. split; [reflexivity|]. split; [vm_compute; auto|]. split.
-  - vm_compute. intros [H|[]]. discriminate.
-  - split; [vm_compute; reflexivity|]. split; [eexists; split; vm_compute; reflexivity|].
-    apply lookup_total. right. now left.
+  intros Hc F. unfold dispatch. rewrite F.
+  assert (K : In (cm_key c) (wrapped_keys s)).
+  { apply (lookup_total v). unfold client_lookup_keys. apply in_map. apply filter_In. split; [assumption|now rewrite F]. }
+  apply mem_str_In in K. now rewrite K.
+Qed.
+
+(* regression witness of the repaired defect (DESIGN section 9 no. 3): add-iam-methods without the IAM mixin *)
+Lemma legacy_iam_example :
+  let s := mkSvc "p.v1" "Library" [mk "GetBook" false false] [] true in
+  ~ In "set_iam_policy" (wrapped_keys s) /\
+  (forall v, In (mkCM "set_iam_policy" Direct "set_iam_policy") (client_methods v s)) /\
+  (forall v, exists st, dispatch v s (mkCM "set_iam_policy" Direct "set_iam_policy") = Some st /\
+                        st_path st = "/google.iam.v1.IAMPolicy/SetIamPolicy") /\
+  dispatch Async s (mkCM "set_iam_policy" Table "set_iam_policy") = None.
+Proof.
+  simpl. split; [vm_compute; intros [H|[]]; discriminate|].
+  split; [intros []; vm_compute; auto|]. split; [|vm_compute; reflexivity].
+  intros []; eexists; split; vm_compute; reflexivity.
 Qed.
 
 (* ================================================================================================ *)
@@ -294,14 +291,3 @@ Proof.
   split; [vm_compute; reflexivity|]. split; [repeat constructor|]. repeat split; vm_compute; reflexivity.
 Qed.
 
-(* the third disjunct of lookup_total: add-iam-methods together with the IAM mixin *)
-Definition ex_iam_svc : svc :=
-  mkSvc "p.v1" "Library" [mk "GetBook" false false] ["SetIamPolicy"; "GetIamPolicy"; "TestIamPermissions"] true.
-Lemma ex_iam_supplied :
-  s_add_iam ex_iam_svc = true /\ iam_supplied ex_iam_svc /\
-  dispatch Async ex_iam_svc (mkCM "set_iam_policy" Table "set_iam_policy") =
-    Some (mkStub "set_iam_policy" UU "/google.iam.v1.IAMPolicy/SetIamPolicy" "SerializeToString" "FromString").
-Proof.
-  split; [reflexivity|]. split; [|vm_compute; reflexivity].
-  intros n H. simpl in H. simpl. intuition.
-Qed.
